@@ -115,7 +115,12 @@ class ScaleKernel(Kernel):
             return to_dense(orig_output) * outputscales
         else:
             outputscales = outputscales.view(*outputscales.shape, 1, 1)
-            return orig_output.mul(outputscales)
+            res = orig_output.mul(outputscales)
+            # LinearOperator.mul treats a one-element tensor as a scalar: restore the (unit) batch dimensions of the outputscale
+            batch_shape = torch.broadcast_shapes(orig_output.shape[:-2], outputscales.shape[:-2])
+            if res.shape[:-2] != batch_shape:
+                res = res.expand(*batch_shape, *res.shape[-2:])
+            return res
 
     def num_outputs_per_input(self, x1, x2):
         return self.base_kernel.num_outputs_per_input(x1, x2)
